@@ -1465,6 +1465,8 @@ impl Core {
 		// CRITICAL ORDERING: Immutable memtables must be flushed BEFORE active memtable
 		// to preserve SSTable ordering (older data = lower table_ids)
 		// IMPORTANT: We do NOT rotate the WAL here to avoid creating an empty WAL file
+		#[cfg(surrealkv_verif)]
+		crate::verif::callback_point("close:before-memtable-flush");
 		if self.inner.opts.flush_on_close {
 			log::info!("Flushing all memtables on shutdown (flush_on_close=true)");
 
@@ -1480,6 +1482,8 @@ impl Core {
 		// This is safe now because all background tasks that could write to WAL are
 		// stopped NOTE: WAL must be closed BEFORE cleanup, otherwise cleanup may
 		// delete the active WAL file
+		#[cfg(surrealkv_verif)]
+		crate::verif::callback_point("close:before-wal-close");
 		let wal_log_number = self.inner.wal.read().get_active_log_number();
 		log::info!("Closing WAL: active_log_number={}", wal_log_number);
 
@@ -1510,6 +1514,8 @@ impl Core {
 		}
 
 		// Step 5: Flush all directories to ensure durability
+		#[cfg(surrealkv_verif)]
+		crate::verif::callback_point("close:before-directory-sync");
 		log::debug!("Syncing directory structure...");
 		sync_directory_structure(&self.inner.opts).map_err(|e| {
 			Error::Other(format!("Failed to sync directories during shutdown: {}", e))
